@@ -144,6 +144,9 @@ def relayout(src, rng):
             text = break_in_brackets(text, rng, pad)
         if rng.random() < 0.8:
             text = multiline_strings(text, rng)
+        if rng.random() < 0.12 and not text.rstrip().endswith('\\'):
+            # a trailing comment, also of the kinds tools give a meaning to (the analysis must not)
+            text = text + '  ' + rng.choice(['# noqa', '# type: ignore', '# pragma: no cover', '# pylint: disable=all', '# TODO', '#'])
         out.append(pad + text)
     new = '\n'.join(out) + '\n'
     if same_ast(base, new) and new != base:
